@@ -1,174 +1,247 @@
-// throw-away probe for C05 findings (becomes part of cmd/c05)
+// Throw-away probe: a real 3-member PD cluster with Local TSO (dc-1, dc-2, dc-3), looking at the suffix width
+// each allocator reports right after start-up and at equal timestamps from different allocators.
 package main
 
 import (
 	"context"
 	"fmt"
 	"os"
+	"strings"
 	"sync"
 	"time"
 
+	"github.com/pingcap/kvproto/pkg/pdpb"
 	"github.com/tikv/pd/pkg/typeutil"
+	"github.com/tikv/pd/server"
 	"github.com/tikv/pd/server/config"
 	"github.com/tikv/pd/server/tso"
 
 	"pdverif/internal/srv15"
 )
 
-func compose(physMs int64, logical int64) uint64 { return uint64(physMs)<<18 | uint64(logical)&0x3FFFF }
+type node struct {
+	s      *server.Server
+	cfg    *config.Config
+	cancel context.CancelFunc
+	dc     string
+}
 
 func main() {
-	cfg, err := srv15.Config()
-	if err != nil {
-		panic(err)
+	n := 3
+	cfgs := make([]*config.Config, n)
+	var peers []string
+	for i := 0; i < n; i++ {
+		cfg, err := srv15.Config()
+		if err != nil {
+			panic(err)
+		}
+		cfg.Name = fmt.Sprintf("pd%d", i+1)
+		cfg.EnableLocalTSO = true
+		cfg.Labels = map[string]string{config.ZoneLabel: fmt.Sprintf("dc-%d", i+1)}
+		cfg.TSOUpdatePhysicalInterval = typeutil.NewDuration(50 * time.Millisecond)
+		cfgs[i] = cfg
+		peers = append(peers, fmt.Sprintf("%s=%s", cfg.Name, cfg.PeerUrls))
 	}
-	cfg.EnableLocalTSO = true
-	cfg.Labels = map[string]string{config.ZoneLabel: "dc-1"}
-	cfg.TSOUpdatePhysicalInterval = typeutil.NewDuration(10 * time.Second)
-	cfg.TSOSaveInterval = typeutil.NewDuration(3 * time.Second)
-	x, err := srv15.StartWith(cfg)
-	if err != nil {
-		panic(err)
+	for _, c := range cfgs {
+		c.InitialCluster = strings.Join(peers, ",")
 	}
-	defer x.Close()
-	s := x.S
-	am := s.GetTSOAllocatorManager()
-	// a second dc-location served by the same member
-	if _, err := s.GetClient().Put(context.Background(), s.GetMember().GetDCLocationPath(424242), "dc-2"); err != nil {
-		panic(err)
+	nodes := make([]*node, n)
+	var wg sync.WaitGroup
+	for i := range cfgs {
+		wg.Add(1)
+		go func(i int) {
+			defer wg.Done()
+			ctx, cancel := context.WithCancel(context.Background())
+			s, err := server.CreateServer(ctx, cfgs[i])
+			if err != nil {
+				panic(err)
+			}
+			if err := s.Run(); err != nil {
+				panic(err)
+			}
+			srv15.Quiet()
+			nodes[i] = &node{s: s, cfg: cfgs[i], cancel: cancel, dc: fmt.Sprintf("dc-%d", i+1)}
+		}(i)
 	}
-	am.ClusterDCLocationChecker()
-	deadline := time.Now().Add(20 * time.Second)
+	wg.Wait()
+	defer func() {
+		for _, x := range nodes {
+			x.s.Close()
+			x.cancel()
+			os.RemoveAll(x.cfg.DataDir)
+		}
+	}()
+	t0 := time.Now()
+	// wait for a PD leader and for every dc to have an allocator leader
+	holder := map[string]*node{}
+	deadline := time.Now().Add(90 * time.Second)
 	for {
-		ok := true
-		for _, dc := range []string{"dc-1", "dc-2"} {
-			a, err := am.GetAllocator(dc)
-			if err != nil || !a.IsInitialize() || !a.(*tso.LocalTSOAllocator).IsAllocatorLeader() {
-				ok = false
+		var leader *node
+		for _, x := range nodes {
+			if x.s.GetMember().IsLeader() {
+				leader = x
 			}
 		}
-		if ok {
+		holder = map[string]*node{}
+		for _, x := range nodes {
+			am := x.s.GetTSOAllocatorManager()
+			for i := 1; i <= n; i++ {
+				dc := fmt.Sprintf("dc-%d", i)
+				a, err := am.GetAllocator(dc)
+				if err == nil && a.IsInitialize() && a.(*tso.LocalTSOAllocator).IsAllocatorLeader() {
+					holder[dc] = x
+				}
+			}
+		}
+		if leader != nil && len(holder) == n {
+			fmt.Printf("ready after %v: pd leader %s\n", time.Since(t0).Round(time.Millisecond), leader.cfg.Name)
 			break
 		}
 		if time.Now().After(deadline) {
-			fmt.Println("local allocators not ready")
-			os.Exit(1)
+			fmt.Println("not ready", leader != nil, len(holder))
+			return
 		}
-		time.Sleep(50 * time.Millisecond)
-		am.ClusterDCLocationChecker()
+		time.Sleep(20 * time.Millisecond)
 	}
-	bits := am.GetSuffixBits()
-	fmt.Println("ready; suffix bits", bits, "dc map", am.GetClusterDCLocations())
-
-	// ---- probe A: a global batch starts below a local timestamp that was returned before ----
-	g, _ := am.GetAllocator(tso.GlobalDCLocation)
-	l1, _ := am.GetAllocator("dc-1")
-	p0 := time.Now().UnixNano()/1e6 + 2000
-	if err := g.SetTSO(compose(p0, 10)); err != nil {
-		fmt.Println("set global:", err)
+	var leader *node
+	for _, x := range nodes {
+		if x.s.GetMember().IsLeader() {
+			leader = x
+		}
 	}
-	if err := l1.SetTSO(compose(p0, 49)); err != nil {
-		fmt.Println("set local:", err)
+	info := leader.s.GetTSOAllocatorManager().GetClusterDCLocations()
+	for dc, h := range holder {
+		fmt.Printf("%s held by %s suffix=%d member-width=%d\n", dc, h.cfg.Name, info[dc].Suffix, h.s.GetTSOAllocatorManager().GetSuffixBits())
 	}
-	lt, err := am.HandleTSORequest("dc-1", 1)
-	fmt.Println("local dc-1:", lt.Physical, lt.Logical, "raw", lt.Logical>>uint(bits), "suffix", lt.Logical&(1<<uint(bits)-1), err)
-	gt, err := am.HandleTSORequest(tso.GlobalDCLocation, 100)
-	fmt.Println("global x100:", gt.Physical, gt.Logical, "raw", gt.Logical>>uint(bits), err)
-	first := gt.Logical - int64(99)<<uint(bits)
-	fmt.Println("first value of the global batch:", gt.Physical, first, " < local returned before:", lt.Physical == gt.Physical && first < lt.Logical)
-
-	// ---- probe A2: alternate local(1) and global(64) sequentially and look for a batch that starts below an earlier local ----
-	viol := 0
-	var lastLocal struct{ p, l int64 }
-	for i := 0; i < 300; i++ {
-		lt, err := am.HandleTSORequest("dc-1", 1)
+	// the PD leader hands the local allocators it holds to the other members (pd-ctl: transfer allocator)
+	var followers []*node
+	for _, x := range nodes {
+		if x != leader {
+			followers = append(followers, x)
+		}
+	}
+	lam := leader.s.GetTSOAllocatorManager()
+	k := 0
+	for i := 1; i <= n; i++ {
+		dc := fmt.Sprintf("dc-%d", i)
+		if holder[dc] == leader {
+			target := followers[k%len(followers)]
+			k++
+			if err := lam.TransferAllocatorForDCLocation(dc, target.s.GetMember().ID()); err != nil {
+				fmt.Println("transfer:", err)
+			}
+			dl := time.Now().Add(30 * time.Second)
+			for time.Now().Before(dl) {
+				a, err := target.s.GetTSOAllocatorManager().GetAllocator(dc)
+				if err == nil && a.IsInitialize() && a.(*tso.LocalTSOAllocator).IsAllocatorLeader() {
+					holder[dc] = target
+					break
+				}
+				time.Sleep(20 * time.Millisecond)
+			}
+			fmt.Printf("%s transferred to %s: %v\n", dc, target.cfg.Name, holder[dc] == target)
+		}
+	}
+	// the operator moves the Global TSO one hour ahead (pd-ctl tso reset / admin API)
+	if _, err := lam.HandleTSORequest(tso.GlobalDCLocation, 1); err != nil {
+		fmt.Println("global warm-up:", err)
+	}
+	ga, _ := lam.GetAllocator(tso.GlobalDCLocation)
+	ahead := time.Now().Add(time.Hour)
+	if err := ga.SetTSO(uint64(ahead.UnixNano()/int64(time.Millisecond)) << 18); err != nil {
+		fmt.Println("SetTSO:", err)
+	}
+	var g1 pdpb.Timestamp
+	for r := 0; r < 20; r++ {
+		g, err := lam.HandleTSORequest(tso.GlobalDCLocation, 1)
 		if err == nil {
-			lastLocal.p, lastLocal.l = lt.Physical, lt.Logical
-		}
-		if i%3 == 0 {
-			am.HandleTSORequest("dc-1", uint32(1+i%50))
-			lt, err = am.HandleTSORequest("dc-1", 1)
-			if err == nil {
-				lastLocal.p, lastLocal.l = lt.Physical, lt.Logical
-			}
-		}
-		gt, err := am.HandleTSORequest(tso.GlobalDCLocation, 64)
-		if err != nil {
-			continue
-		}
-		first := gt.Logical - int64(63)<<uint(bits)
-		if gt.Physical < lastLocal.p || (gt.Physical == lastLocal.p && first <= lastLocal.l) {
-			viol++
-			if viol <= 3 {
-				fmt.Println("BATCH BELOW EARLIER LOCAL: local", lastLocal, "global last", gt.Physical, gt.Logical, "first", first)
-			}
-		}
-	}
-	fmt.Println("probe A2 violations:", viol, "of 300")
-
-	// ---- probe B: concurrent global requests while locals run ahead ----
-	stop := make(chan struct{})
-	var wg sync.WaitGroup
-	wg.Add(1)
-	go func() {
-		defer wg.Done()
-		for {
-			select {
-			case <-stop:
-				return
-			default:
-				am.HandleTSORequest("dc-1", 7)
-			}
-		}
-	}()
-	type key struct{ p, l int64 }
-	var mu sync.Mutex
-	seen := map[key]int{}
-	dups := 0
-	total := 0
-	for w := 0; w < 8; w++ {
-		wg.Add(1)
-		go func() {
-			defer wg.Done()
-			for i := 0; i < 300; i++ {
-				t, err := am.HandleTSORequest(tso.GlobalDCLocation, 1)
-				if err != nil {
-					continue
-				}
-				mu.Lock()
-				total++
-				k := key{t.Physical, t.Logical}
-				seen[k]++
-				if seen[k] == 2 {
-					dups++
-					if dups <= 3 {
-						fmt.Println("DUPLICATE global timestamp:", k)
-					}
-				}
-				mu.Unlock()
-			}
-		}()
-	}
-	time.Sleep(100 * time.Millisecond)
-	// wait for the 8 workers (the local hammer is stopped afterwards)
-	done := make(chan struct{})
-	go func() { wg.Wait(); close(done) }()
-	for {
-		mu.Lock()
-		t := total
-		mu.Unlock()
-		if t >= 8*300-400 {
+			g1 = g
 			break
 		}
-		select {
-		case <-time.After(30 * time.Second):
-			fmt.Println("timeout; total", t)
-			goto out
-		case <-time.After(200 * time.Millisecond):
+		time.Sleep(100 * time.Millisecond)
+	}
+	fmt.Printf("global timestamp after the reset: physical %d (now %d)\n", g1.Physical, time.Now().UnixNano()/int64(time.Millisecond))
+	// two more datacenters join later (members that never get to campaign themselves)
+	cli := leader.s.GetClient()
+	for k, id := range []uint64{424244, 424245} {
+		if _, err := cli.Put(context.Background(), leader.s.GetMember().GetDCLocationPath(id), fmt.Sprintf("dc-%d", 4+k)); err != nil {
+			panic(err)
 		}
 	}
-out:
-	close(stop)
-	<-done
-	fmt.Println("global requests:", total, "distinct:", len(seen), "duplicated values:", dups)
+	tj := time.Now()
+	leader.s.GetTSOAllocatorManager().ClusterDCLocationChecker() // the PD leader's periodic check fires now
+	n = 5
+	deadline = time.Now().Add(50 * time.Second)
+	for {
+		for _, x := range nodes {
+			am := x.s.GetTSOAllocatorManager()
+			for i := 4; i <= n; i++ {
+				dc := fmt.Sprintf("dc-%d", i)
+				a, err := am.GetAllocator(dc)
+				if err == nil && a.IsInitialize() && a.(*tso.LocalTSOAllocator).IsAllocatorLeader() {
+					holder[dc] = x
+				}
+			}
+		}
+		if len(holder) == n {
+			break
+		}
+		if time.Now().After(deadline) {
+			fmt.Println("new dcs not ready", len(holder))
+			return
+		}
+		time.Sleep(20 * time.Millisecond)
+	}
+	info = leader.s.GetTSOAllocatorManager().GetClusterDCLocations()
+	fmt.Printf("new dcs serving %v after the join\n", time.Since(tj).Round(time.Millisecond))
+	for dc, h := range holder {
+		fmt.Printf("%s held by %s suffix=%d member-width=%d\n", dc, h.cfg.Name, info[dc].Suffix, h.s.GetTSOAllocatorManager().GetSuffixBits())
+	}
+	for _, dc := range []string{"dc-4", "dc-5"} {
+		l, err := holder[dc].s.GetTSOAllocatorManager().HandleTSORequest(dc, 1)
+		fmt.Printf("first local timestamp of %s: physical %d err=%v; last global physical %d -> %s\n", dc, l.Physical, err, g1.Physical,
+			map[bool]string{true: "greater (ok)", false: "NOT GREATER THAN THE EARLIER GLOBAL TIMESTAMP"}[l.Physical > g1.Physical || (l.Physical == g1.Physical && l.Logical > g1.Logical)])
+	}
+	type ans struct {
+		dc string
+		ts pdpb.Timestamp
+	}
+	seen := map[[2]int64]ans{}
+	check := func(dc string, ts pdpb.Timestamp, count uint32) {
+		// every timestamp of the batch: logical - k<<bits for k < count
+		for k := int64(0); k < int64(count); k++ {
+			l := ts.Logical - (k << ts.SuffixBits)
+			key := [2]int64{ts.Physical, l}
+			if o, ok := seen[key]; ok && o.dc != dc {
+				fmt.Printf("EQUAL TIMESTAMPS: (%d,%d) from %s (width %d) and from %s (width %d)\n", ts.Physical, l, o.dc, o.ts.SuffixBits, dc, ts.SuffixBits)
+			}
+			seen[key] = ans{dc, ts}
+		}
+	}
+	for round := 0; round < 40; round++ {
+		g, err := leader.s.GetTSOAllocatorManager().HandleTSORequest(tso.GlobalDCLocation, 1)
+		if err != nil {
+			fmt.Println("global:", err)
+			time.Sleep(200 * time.Millisecond)
+			continue
+		}
+		check("global", g, 1)
+		widths := map[string]uint32{"global": g.SuffixBits}
+		for i := 1; i <= n; i++ {
+			dc := fmt.Sprintf("dc-%d", i)
+			for r := 0; r < 3; r++ {
+				l, err := holder[dc].s.GetTSOAllocatorManager().HandleTSORequest(dc, 24)
+				if err != nil {
+					fmt.Println(dc, err)
+					continue
+				}
+				widths[dc] = l.SuffixBits
+				check(dc, l, 24)
+			}
+		}
+		if round%5 == 0 {
+			fmt.Printf("t=%v widths %v\n", time.Since(t0).Round(time.Second), widths)
+		}
+		time.Sleep(100 * time.Millisecond)
+	}
 }
